@@ -156,7 +156,12 @@ func (m *metaFile) StoreHardState(hs *raftpb.HardState) error {
 	if len(buf) >= snapshotIndex-hardStateOffset {
 		return fmt.Errorf("invalid HardState")
 	}
-	if err = m.meta.WriteSlice(0, 0, hardStateOffset, buf, true, false); err != nil {
+	// The size prefix and the state are handed over in one write: a process killed between two writes would leave
+	// the new size in front of the old bytes, which no longer parse.
+	out := make([]byte, unit32Size+len(buf))
+	binary.BigEndian.PutUint32(out, uint32(len(buf)))
+	copy(out[unit32Size:], buf)
+	if _, err = m.meta.WriteAt(0, hardStateOffset, out, true); err != nil {
 		return err
 	}
 	return nil
@@ -183,15 +188,20 @@ func (m *metaFile) StoreSnapshot(snap *raftpb.Snapshot) error {
 	if !IsValidSnapshot(*snap) {
 		return nil
 	}
-	m.SetUint(SnapshotIndex, snap.Metadata.Index)
-	m.SetUint(SnapshotTerm, snap.Metadata.Term)
-
 	buf, err := snap.Marshal()
 	if err != nil {
 		return errors.Wrapf(err, "cannot marshal snapshot")
 	}
 
-	if err = m.meta.WriteSlice(0, 0, snapshotOffset, buf, true, false); err != nil {
+	// Snapshot index, term, size prefix and the snapshot itself are adjacent in the file and are handed over in one
+	// write: a process killed between separate writes would leave an index that disagrees with the stored snapshot,
+	// or a size prefix in front of other bytes, and Init would refuse the directory from then on.
+	out := make([]byte, snapshotOffset-snapshotIndex+unit32Size+len(buf))
+	binary.BigEndian.PutUint64(out, snap.Metadata.Index)
+	binary.BigEndian.PutUint64(out[unit64Size:], snap.Metadata.Term)
+	binary.BigEndian.PutUint32(out[snapshotOffset-snapshotIndex:], uint32(len(buf)))
+	copy(out[snapshotOffset-snapshotIndex+unit32Size:], buf)
+	if _, err = m.meta.WriteAt(0, snapshotIndex, out, true); err != nil {
 		return err
 	}
 	return nil
